@@ -21,7 +21,9 @@ BOUNDS = {
     'quick': 'session templates: (1) EHLO MAIL RCPT DATA <body> QUIT, (2) two '
              'transactions, (3) RSET/NOOP mix with an empty body, (4) body '
              'over the SIZE limit, (5) a complete line and more bytes behind QUIT in the same segment, '
-             '(6) disconnect in the middle of a command line; every body of b<=3 (template 2: 2) '
+             '(6) disconnect in the middle of a command line, (7) a client '
+             'that waits for every reply and whose message is 4095/4096/4097 '
+             'bytes (one full read), in one segment vs cut at 9 positions; every body of b<=3 (template 2: 2) '
              'arbitrary bytes (so '
              'dots, CR, LF, empty bodies and command look-alikes occur), '
              'stream cut at one arbitrary position between the DATA command '
@@ -33,8 +35,10 @@ BOUNDS = {
 }
 OUTSIDE = 'TLS; more transactions; AUTH exchanges'
 STUBS = ['FakeSocket (recv returns the scripted segments)',
+         'LockstepSocket (flight k readable once k replies were sent; a read '
+         'before that = blocked)',
          'recording handlers', 'slimta.logging -> no-ops']
-ASSUMPTIONS = ['recv(4096) never splits a segment (streams < 4096 bytes)']
+ASSUMPTIONS = ['recv(4096) never splits a segment (templates 1-6: streams < 4096 bytes)']
 CELL_BUDGET_S = {'quick': 240, 'thorough': 2400}
 SAMPLE_P = 0.02
 MAX_WITNESSES = 10
@@ -58,6 +62,7 @@ def cells(tier):
         for b in ((1,) if q else (1, 2)):
             out.append({'tpl': tpl, 'b': b, 'mode': 'cuts', 'c': 1})
             out.append({'tpl': tpl, 'b': b, 'mode': 'bytewise'})
+    out.append({'tpl': 7, 'b': 1 if q else 2, 'mode': 'lockstep'})
     return out
 
 
@@ -131,6 +136,97 @@ def session(segments, max_size):
     return sock.wire(), handlers.trace, ended
 
 
+class Blocked(Exception):
+    """the server reads while the client is waiting for a reply"""
+
+
+class LockstepSocket(FakeSocket):
+    """A client that does not pipeline: flight k is sent only once the
+    server has sent k complete replies.  A recv() while the client waits
+    is a deadlock (in real life: until the timeout)."""
+
+    def __init__(self, flights):
+        FakeSocket.__init__(self, [], eof=True)
+        self.flights = list(flights)
+        self.replies = 0
+
+    def sendall(self, data):
+        FakeSocket.sendall(self, data)
+        import re
+        try:
+            raw = bytes(data)
+        except Exception:
+            self.replies += 1
+            return
+        self.replies += len(re.findall(br'(?m)^\d\d\d .*\r$', raw))
+
+    send = sendall
+
+    def recv(self, n=4096):
+        if not self.segments:
+            if not self.flights:
+                return b''
+            need, segs = self.flights[0]
+            if self.replies < need:
+                raise Blocked()
+            self.flights.pop(0)
+            self.segments = [x for x in segs if len(x)]
+        return FakeSocket.recv(self, n)
+
+
+def lockstep_session(flights):
+    from slimta.smtp.server import Server
+    from slimta.smtp import ConnectionLost
+    sock = LockstepSocket(flights)
+    handlers = SizeRec(lambda name: None)
+    server = Server(sock, handlers, ('10.0.0.1', 1))
+    ended = 'returned'
+    try:
+        server.handle()
+    except ConnectionLost:
+        ended = 'connection-lost'
+    except Blocked:
+        ended = 'blocked-reading-while-the-client-waits-for-a-reply'
+    except api.Unsupported:
+        raise
+    except Exception as e:
+        ended = 'raised:' + type(e).__name__
+    return sock.wire(), handlers.trace, ended
+
+
+def run_lockstep(cell):
+    """a non-pipelining client whose message fills a whole 4096-byte read
+    (one byte less / more as well), in one segment vs cut in two"""
+    b = cell['b']
+    total = 4095 + api.choice('size', 3)
+    tail = api.sbytes('body', b) + b'\r\n.\r\n'
+    fill = total - len(tail)
+    line = b'x' * 70 + b'\r\n'
+    body = (line * (fill // 72 + 1))[-fill:] if fill else b''
+    data = body + tail
+    cutmenu = [1, 72, 1000, total - 6, total - 5, total - 4, total - 3,
+               total - 2, total - 1]
+    cut = cutmenu[api.choice('cut', len(cutmenu))]
+
+    def flights(segs):
+        return [(1, [b'EHLO c\r\n']), (2, [b'MAIL FROM:<a@b>\r\n']),
+                (3, [b'RCPT TO:<c@d>\r\n']), (4, [b'DATA\r\n']),
+                (5, segs), (6, [b'QUIT\r\n'])]
+    w1, t1, e1 = lockstep_session(flights([data]))
+    w2, t2, e2 = lockstep_session(flights([data[:cut], data[cut:]]))
+    info = dict(tpl=7, b=b, size=total, cuts=[cut])
+    api.observe('burst', [w1, [t[0] for t in t1], e1])
+    api.observe('cut', [w2, [t[0] for t in t2], e2])
+    api.prove(e1 == e2, 'session-end-differs', burst=e1, cut=e2, **info)
+    ok, cond = same_trace(t1, t2)
+    if not api.prove(ok, 'callback-sequence-depends-on-segmentation',
+                     burst=[t[0] for t in t1], cut=[t[0] for t in t2],
+                     **info):
+        return
+    api.prove(cond, 'callback-arguments-depend-on-segmentation', **info)
+    api.prove(w1 == w2, 'replies-depend-on-segmentation', **info)
+
+
 def same_trace(a, b):
     """-> (structurally comparable, condition that all arguments are equal)"""
     if len(a) != len(b):
@@ -149,6 +245,8 @@ def same_trace(a, b):
 
 
 def run(cell):
+    if cell['mode'] == 'lockstep':
+        return run_lockstep(cell)
     tpl, b = cell['tpl'], cell['b']
     stream, lo, hi = build_stream(tpl, b)
     max_size = 10 if tpl == 4 else None
